@@ -9,7 +9,10 @@ use dsi_progress_logger::no_logging;
 use std::io::{BufReader, Cursor};
 use sux::func::shard_edge::*;
 use sux::prelude::*;
-use sux::utils::{FromIntoIterator, LineLender};
+use common_traits::CastableInto;
+use epserde::traits::ZeroCopy;
+use sux::traits::bit_field_slice::Word;
+use sux::utils::{FromIntoIterator, LineLender, Sig, ToSig};
 use vh::proto;
 use vh::rt::*;
 
@@ -30,6 +33,8 @@ enum Vals {
     AllZero,
     AllMax,
     Identity,
+    /// pseudo-random values of exactly this many bits (the first one has all of them set)
+    Wide(u32),
 }
 
 #[derive(Clone, Debug)]
@@ -131,7 +136,52 @@ fn val_u128(v: Vals, i: usize, bits: u32) -> u128 {
         Vals::AllZero => 0,
         Vals::AllMax => m,
         Vals::Identity => i as u128 & m,
+        Vals::Wide(b) => {
+            let wm = if b >= 128 { u128::MAX } else { (1u128 << b) - 1 };
+            (if i == 0 { wm } else { (mix(i as u64) as u128) << 64 | mix(i as u64 + 77) as u128 }) & wm & m
+        }
     }
+}
+
+/// The unaligned accessors exist on bit-field backends only and demand a value width of at most
+/// BITS - 6, or BITS - 4, or BITS: `None` when the backend has no such accessor.
+trait Unal<T: ?Sized, W> {
+    fn unal(&self, k: &T) -> Option<W>;
+}
+impl<T: ?Sized + ToSig<S>, W: ZeroCopy + Word, S: Sig, E: ShardEdge<S, 3>> Unal<T, W> for VFunc<T, W, BitFieldVec<W>, S, E> {
+    fn unal(&self, k: &T) -> Option<W> {
+        Some(self.get_unaligned(k))
+    }
+}
+impl<T: ?Sized + ToSig<S>, W: ZeroCopy + Word, S: Sig, E: ShardEdge<S, 3>> Unal<T, W> for VFunc<T, W, Box<[W]>, S, E>
+where
+    Box<[W]>: BitFieldSlice<W>,
+{
+    fn unal(&self, _k: &T) -> Option<W> {
+        None
+    }
+}
+trait UnalF<T: ?Sized> {
+    fn contains_unal(&self, k: &T) -> Option<bool>;
+}
+impl<T: ?Sized + ToSig<S>, W: ZeroCopy + Word, S: Sig, E: ShardEdge<S, 3>> UnalF<T> for VFilter<W, VFunc<T, W, BitFieldVec<W>, S, E>>
+where
+    u64: CastableInto<W>,
+{
+    fn contains_unal(&self, k: &T) -> Option<bool> {
+        Some(self.contains_unaligned(k))
+    }
+}
+impl<T: ?Sized + ToSig<S>, W: ZeroCopy + Word, S: Sig, E: ShardEdge<S, 3>> UnalF<T> for VFilter<W, VFunc<T, W, Box<[W]>, S, E>>
+where
+    Box<[W]>: BitFieldSlice<W>,
+{
+    fn contains_unal(&self, _k: &T) -> Option<bool> {
+        None
+    }
+}
+fn unaligned_ok(width: usize, bits: usize) -> bool {
+    width + 6 <= bits || width + 4 == bits || width == bits
 }
 
 /// A key source over key(0..n) that counts how many times it has been rewound.
@@ -276,6 +326,18 @@ macro_rules! func_case {
                                 first.get_or_insert((i, g));
                             }
                         }
+                        // the unaligned accessor, where the backend has one and the value width admits it
+                        let width = vals.iter().map(|v| (<$W>::BITS - v.leading_zeros()) as usize).max().unwrap_or(0);
+                        if unaligned_ok(width, <$W>::BITS as usize) {
+                            for i in 0..n {
+                                if let Some(g) = func_case!(@unal f, $kk, i) {
+                                    if g != vals[i] {
+                                        wrong += 1;
+                                        first.get_or_insert((i, g));
+                                    }
+                                }
+                            }
+                        }
                         (f.len(), wrong, first)
                     });
                     match chk {
@@ -301,6 +363,10 @@ macro_rules! func_case {
         let text: String = (0..$n).map(|i| skey(i) + "\n").collect();
         $b.try_build_func::<str>(LineLender::new(BufReader::new(Cursor::new(text.into_bytes()))), $values, no_logging![])
     }};
+    (@unal $f:expr, usize, $i:expr) => { $f.unal(&key($i)) };
+    (@unal $f:expr, u64, $i:expr) => { $f.unal(&(key($i) as u64)) };
+    (@unal $f:expr, string, $i:expr) => { $f.unal(&skey($i)) };
+    (@unal $f:expr, str, $i:expr) => { $f.unal(skey($i).as_str()) };
     (@get $f:expr, usize, $i:expr) => { $f.get(key($i)) };
     (@get $f:expr, u64, $i:expr) => { $f.get(key($i) as u64) };
     (@get $f:expr, string, $i:expr) => { $f.get(skey($i)) };
@@ -337,6 +403,8 @@ macro_rules! filter_case {
                         for i in 0..n {
                             if !f.contains(key(i)) || !f[key(i)] {
                                 fneg += 1;
+                            } else if unaligned_ok(b_bits, <$W>::BITS as usize) && f.contains_unal(&key(i)) == Some(false) {
+                                fneg += 1;
                             }
                         }
                         let mut fpos = 0usize;
@@ -344,8 +412,12 @@ macro_rules! filter_case {
                         if fp {
                             // probe keys are never members: members are 7 mod 3 = 1, probes are 0 mod 3
                             for j in 0..probes {
-                                if f.contains(3 * (j + 1_000_000)) {
+                                let c = f.contains(3 * (j + 1_000_000));
+                                if c {
                                     fpos += 1;
+                                }
+                                if unaligned_ok(b_bits, <$W>::BITS as usize) && f.contains_unal(&(3 * (j + 1_000_000))).is_some_and(|u| u != c) {
+                                    fneg += 1; // the two accessors disagree on a probe
                                 }
                             }
                         }
@@ -505,6 +577,19 @@ fn funcs(r: &mut Runner, t: bool) {
     for n in 0..=nd {
         for c in &devs {
             func_case!(r, "usize,BitFieldVec<usize>,[u64;2],FuseLge3Shards", n, c, keys = usize, W = usize, D = BitFieldVec<usize>, S = [u64; 2], E = FuseLge3Shards);
+        }
+    }
+    // every value width of the word, three sizes (the width selects the cell layout and which accessors apply)
+    for b in 1..=64u32 {
+        for &n in &[1usize, 100, 1000] {
+            let c = Cfg { vals: Vals::Wide(b), ..d.clone() };
+            func_case!(r, "usize,BitFieldVec<usize>,[u64;2],FuseLge3Shards", n, &c, keys = usize, W = usize, D = BitFieldVec<usize>, S = [u64; 2], E = FuseLge3Shards);
+            if b <= 16 {
+                func_case!(r, "usize,BitFieldVec<u16>,[u64;2],FuseLge3Shards", n, &c, keys = usize, W = u16, D = BitFieldVec<u16>, S = [u64; 2], E = FuseLge3Shards);
+            }
+            if b <= 8 {
+                func_case!(r, "usize,BitFieldVec<u8>,[u64;2],FuseLge3Shards", n, &c, keys = usize, W = u8, D = BitFieldVec<u8>, S = [u64; 2], E = FuseLge3Shards);
+            }
         }
     }
     // pairs of run-time deviations at selected sizes
